@@ -74,9 +74,17 @@ class SimFS(object):
       self._crash()
     return path
 
-  def os_write(self, path, data):
-    """A write reaching the OS (the flush of a user-space buffer)."""
+  def os_write(self, path, data, raw=False):
+    """A write reaching the OS (the flush of a user-space buffer, or - raw - one write(2) of an
+    unbuffered handle: when only part of the data fits, write(2) reports the short count and no error;
+    a buffered writer retries the rest and so meets the error)."""
     f = self._op('write', '%s+%d' % (path, len(data)))
+    if raw and f is not None and f.kind == 'error' and int(len(data) * f.torn) > 0:
+      n = int(len(data) * f.torn)
+      if path in self.files:
+        self.files[path] += data[:n]
+      self.short_writes = getattr(self, 'short_writes', 0) + 1
+      return n
     if f is not None:
       if f.kind == 'crash_before':
         self._crash()
@@ -97,6 +105,7 @@ class SimFS(object):
       self.files[path] += data
     if f is not None and f.kind == 'crash_after':
       self._crash()
+    return len(data)
 
   def fsync(self, path):
     f = self._op('fsync', path)
@@ -154,10 +163,11 @@ class SimFS(object):
 class SimFile(object):
   """A buffered file handle on a SimFS path."""
 
-  def __init__(self, fs, path, mode):
+  def __init__(self, fs, path, mode, unbuffered=False):
     self.fs = fs
     self.name = path
     self.mode = mode
+    self.unbuffered = unbuffered
     self.buf = bytearray()
     self.closed = False
     self.text = 'b' not in mode
@@ -177,6 +187,9 @@ class SimFile(object):
       if not isinstance(data, (bytes, bytearray, memoryview)):
         raise TypeError("a bytes-like object is required, not '%s'" % type(data).__name__)
       raw = bytes(data)
+    if self.unbuffered:
+      # io.FileIO: one write(2) per call, the count it accepted is returned
+      return self.fs.os_write(self.name, raw, raw=True)
     self.buf += raw
     if len(self.buf) >= self.fs.bufsize:
       self._flush()
@@ -236,7 +249,7 @@ class TempfileFacade(object):
 
   def NamedTemporaryFile(self, mode='w+b', delete=True, **kw):  # pylint: disable=invalid-name
     path = self.fs.create_temp()
-    h = SimFile(self.fs, path, 'wb' if 'b' in mode else 'w')
+    h = SimFile(self.fs, path, 'wb' if 'b' in mode else 'w', unbuffered=(kw.get('buffering', -1) == 0))
     self.fs.open_handles.append(h)
     return h
 
